@@ -28,7 +28,7 @@ package bufcli
 // configuration exists that would silently fall back to .netrc or send a partial token.
 //@ func NewConnectClientConfig(container) (r, err)
 //@   property C19
-//@   modifies heap, ghost.w_authSources
+//@   modifies heap, ghost.w_authSources, ghost.rg_cfgReads, ghost.rg_cfgReadErr
 //@   ensures malformed-BUF_TOKEN-fails-the-configuration: (contains(container.Env("BUF_TOKEN"), ",") || contains(container.Env("BUF_TOKEN"), "@")) && (exists j int :: 0 <= j && j < len(strings.Split(container.Env("BUF_TOKEN"), ",")) && !w_elemOK(strings.Split(container.Env("BUF_TOKEN"), ",")[j])) ==> err != nil && r == nil
 //@   ensures error-means-no-configuration: err != nil ==> r == nil
 //@   ensures env-first-then-netrc: err == nil ==> len(ghost.w_authSources) == 2 && typeOf(ghost.w_authSources[1]) == typeId(*bufconnect.netrcTokenProvider) && (typeOf(ghost.w_authSources[0]) == typeId(bufconnect.nopTokenProvider) || typeOf(ghost.w_authSources[0]) == typeId(*bufconnect.singleTokenProvider) || typeOf(ghost.w_authSources[0]) == typeId(*bufconnect.multipleTokenProvider))
@@ -40,7 +40,7 @@ package bufcli
 // An explicit token (buf registry login): the single source is built from that string, nothing from the environment.
 //@ func NewConnectClientConfigWithToken(container, token) (r, err)
 //@   property C19
-//@   modifies heap, ghost.w_authSources
+//@   modifies heap, ghost.w_authSources, ghost.rg_cfgReads, ghost.rg_cfgReadErr
 //@   ensures malformed-token-fails-the-configuration: (contains(token, ",") || contains(token, "@")) && (exists j int :: 0 <= j && j < len(strings.Split(token, ",")) && !w_elemOK(strings.Split(token, ",")[j])) ==> err != nil && r == nil
 //@   ensures error-means-no-configuration: err != nil ==> r == nil
 //@   ensures only-the-given-token: err == nil ==> len(ghost.w_authSources) == 1 && (token == "" ==> typeOf(ghost.w_authSources[0]) == typeId(bufconnect.nopTokenProvider)) && (token != "" && !contains(token, ",") && !contains(token, "@") ==> typeOf(ghost.w_authSources[0]) == typeId(*bufconnect.singleTokenProvider))
@@ -51,6 +51,6 @@ package bufcli
 // interceptor captured the bare host).
 //@ func newConnectClientConfigWithOptions(container, opts) (r, err)
 //@   property C19
-//@   modifies heap
+//@   modifies heap, ghost.rg_cfgReads, ghost.rg_cfgReadErr
 //@   ensures error-means-no-configuration: err != nil ==> r == nil
 //@   closure 0 ensures same-host-with-scheme: r == "http://" + address || r == "https://" + address
